@@ -1465,6 +1465,11 @@ func ruleObjStmSlots(c *core.Ctx, rule string) {
 				}
 				if over == refs || over == objects || nVars[over] || isLen {
 					pos[core.ObjOf(info, x.Key)] = true
+				} else if t := info.TypeOf(x.X); t != nil {
+					// a range over a parallel slice (one element per member, e.g. the recorded offsets) also counts positions
+					if _, isSlice := t.Underlying().(*types.Slice); isSlice {
+						pos[core.ObjOf(info, x.Key)] = true
+					}
 				}
 			case *ast.ForStmt:
 				if as, ok := x.Init.(*ast.AssignStmt); ok && len(as.Lhs) == 1 && len(as.Rhs) == 1 {
